@@ -81,6 +81,7 @@ func (e *Eng) obligations() {
 	e.syncCapacity()
 	e.pipeline()
 	e.sharedVars()
+	e.stage1State()
 	// pooled objects are reset before they are put back / after they are taken
 	e.poolDiscipline()
 
